@@ -351,6 +351,17 @@ consulted · assessor consulted · finish / agent raised), with clock advances, 
 between; no well-formedness of the interleaving is assumed.  The clauses of the property hold for every reply of
 every such history, each request being judged by ITS OWN prompt and verdicts. -/
 
+/-- E2, observed on the real code on every run: the only attributes of the loop object through which one phase
+    of `run` (look-up | executor consulted | assessor consulted | finish) hands anything to a later phase of the
+    same request are modelled state (the breaker fields and the cache, `stateAttrs`).  Everything else a request
+    needs later — its prompt, its cache key, the agents' outputs — stays in locals, which is why the model's
+    `finish` is a function of the current state and the request's own `(p, z, y)` only, and why an overlapping
+    request cannot change what a pending request files or returns beyond what `execPhases` describes. -/
+theorem c07_request_state_is_local :
+    ∃ attrs, GateTable.carried = some attrs ∧ ∀ a ∈ attrs, a ∈ stateAttrs := by
+  refine ⟨_, rfl, ?_⟩
+  decide
+
 /-- Sequential histories are phase histories: for every history there is a phase history (each request's phases
     consecutive) with the same final state and the same replies in the same order.  So the theorems about
     `execPhases` below subsume their sequential counterparts. -/
